@@ -1069,6 +1069,14 @@ static int write_text(void *context, UChar *text, int32_t length, int fold, int 
                     next_tok += 1;
                     continue;
                 }
+            } else if (*next_tok == 0) {
+                /* the text ends with a newline: its last line is empty, too */
+                if (u_fputc(UCHAR_NL, CONTEXT_UFILE(context)) != UCHAR_NL) {
+                    return CIF_ERROR;
+                } else {
+                    next_tok = NULL;
+                    continue;
+                }
             }
 
             /* find the end of this line, and determine whether it needs to be protected */
